@@ -202,7 +202,7 @@ def genLeaf (ctx : GenCtx) (id : Nat) (l : Leaf) (r : Rng) : Option (Val × Rng)
       let w := weekdayFor y m d
       some (.nat (y * 16777216 + m * 1048576 + d * 16384 + w * 2048 + h * 64 + mi), r)
   | .cstring | .sizedCString | .string =>
-      let (n, r) := r.below 9
+      let (n, r) := r.below (min 9 (ctx.maxLen * 2 + 1))
       let (bs, r) := (List.range n).foldl (fun (acc : Bytes × Rng) _ =>
         let (x, r) := acc.2.below 26; (UInt8.ofNat (97 + x) :: acc.1, r)) ([], r)
       some (.bytes bs, r)
